@@ -104,6 +104,12 @@ var c10Files = map[string]string{
 		`<template include="leakcomp.vuego" :canary3="'CANARY-7f3a'"></template><div v-for="(i, p) in items"><template :canary2="'CANARY-7f3a'"></template><b>{{ canary2 }}</b></div>`,
 	"leakcomp.vuego":     `<template canary="CANARY-7f3a"></template><i v-for="w in items"><template canary4="CANARY-7f3a"></template>c</i>`,
 	"leaksink.vuego":     `<b>[{{ canary }}|{{ canary2 }}|{{ canary3 }}|{{ canary4 }}|{{ pp }}]</b><ol><li v-for="q in items">[{{ canary }}|{{ canary2 }}|{{ canary4 }}|{{ p }}|{{ pp }}]</li></ol><template include="leaksinkcomp.vuego"></template>`,
+	// components WITHOUT any template syntax of their own (plain markup, includes with literal props only) around a component that reads the
+	// includer's variables: what the inner component prints is decided by the scope of each use - per render, per loop iteration
+	"staticwrap.vuego": `<template include="wrap.vuego"></template><i v-for="x in items"><template include="wrap.vuego"></template></i><template include="wrap2.vuego"></template><p>{{ a }}</p>`,
+	"wrap.vuego":       `<section class="w"><template include="wleaf.vuego" kind="plain"></template></section>`,
+	"wrap2.vuego":      `<div><template include="wrap.vuego"></template><ui-badge label="fixed"></ui-badge></div>`,
+	"wleaf.vuego":      `<b>{{ kind }}:{{ a }}/{{ b }}/{{ x }}</b>`,
 	"leaksinkcomp.vuego": `<u>[{{ canary }}|{{ canary3 }}]</u><s v-for="z in items">[{{ canary }}|{{ canary4 }}|{{ w }}]</s>`,
 }
 
@@ -160,7 +166,7 @@ func c10WideData() map[string]any {
 
 func c10Progs() []c10Prog {
 	var out []c10Prog
-	for _, f := range []string{"attrs", "style", "loop", "chain", "inc", "once", "filters", "fm", "layouted", "slotpage", "fmset", "nest", "fail", "failinc", "failmid", "failtext", "failreq", "tpl", "vhtml", "map", "tplhtml", "shorthand", "leaksrc", "leaksink", "blog/hello", "docs/intro"} {
+	for _, f := range []string{"attrs", "style", "loop", "chain", "inc", "once", "filters", "fm", "layouted", "slotpage", "fmset", "nest", "fail", "failinc", "failmid", "failtext", "failreq", "tpl", "vhtml", "map", "tplhtml", "shorthand", "leaksrc", "leaksink", "blog/hello", "docs/intro", "staticwrap"} {
 		for v := 0; v < 4; v++ {
 			out = append(out, c10Prog{fmt.Sprintf("%s/%d", f, v), f + ".vuego", c10Data(v), ""})
 		}
